@@ -109,6 +109,9 @@ def apply_impl(n, op):
 
 
 def fresh(init):
+    if init and init[0] == 'text':
+        # composed from text: the nodes carry marks, and an alias is the SAME node object as its anchor
+        return yatiml.Node(yaml.compose(init[1]))
     return yatiml.Node(yaml.MappingNode(P + 'map', [(yaml.ScalarNode(P + 'str', k), to_node(v)) for k, v in init]))
 
 
@@ -117,13 +120,15 @@ def state_of(n):
 
 
 INITS = ([()] + [((k, v),) for k in 'ab' for v in [VALS['vi'][0], NODEVAL, ('m', P + 'map', ())]]
-         + [(('a', VALS['vi'][0]), ('b', VALS['vs'][0])), (('b', VALS['vn'][0]), ('a', NODEVAL))])
+         + [(('a', VALS['vi'][0]), ('b', VALS['vs'][0])), (('b', VALS['vn'][0]), ('a', NODEVAL))]
+         + [('text', 'a: &x 1\nb: *x\n'), ('text', 'b: &y [1]\na: *y\n'), ('text', 'a: s\nb: 1.5\n')])
 
 
 def run_bfs(init, depth, res):
     """BFS from one initial state; histories are replayed on a fresh Node for every transition"""
-    seen = {init: ()}
-    frontier = collections.deque([init])
+    s0 = state_of(fresh(init)) if init and init[0] == 'text' else init
+    seen = {s0: ()}
+    frontier = collections.deque([s0])
     while frontier:
         s = frontier.popleft()
         hist = seen[s]
@@ -167,6 +172,8 @@ def run_bfs(init, depth, res):
 
 
 def short(state):
+    if state and state[0] == 'text':
+        return state[1]
     return [(k, v[1].split(':')[-1] + ':' + str(v[2])[:12]) for k, v in state]
 
 
@@ -288,8 +295,13 @@ def node_value(v):
 
 def defaults_cases(res):
     for di, d in enumerate(DEFAULTS):
-        for override in (False, True, 'over-5'):
-            if override == 'over-5':
+        for override in (False, True, 'over-5', 'extra-first'):
+            if override == 'extra-first':
+                # a defaulted _yatiml_extra declared before the defaulted parameters must not shift their defaults
+                class K:
+                    def __init__(self, req: int, _yatiml_extra: collections.OrderedDict = None, w: int = 77, x=d, y: int = 3) -> None:
+                        pass
+            elif override == 'over-5':
                 # the signature says 5, _yatiml_defaults says d (also when d is None): d is the default
                 class K:
                     def __init__(self, req: int, x=5, y: int = 3) -> None:
@@ -415,7 +427,7 @@ def replay(payload):
         init = _tup(payload['init'])
         hist = [_tup(o) for o in payload['history']]
         n = fresh(init)
-        s = init
+        s = state_of(n) if init and init[0] == 'text' else init
         for op in hist:
             ir = apply_impl(n, op)
             s, mr = model(s, op)
